@@ -40,14 +40,25 @@ func tryTabulate(i *interpreter, fn *ssa.Function, args []value) (value, bool) {
 				te.ok = true
 				pk, _ := basicKind(fn.Signature.Params().At(0).Type())
 				saveSteps := X.steps
-				for v := 0; v < 256; v++ {
-					r := callSSA(i, nil, token.NoPos, fn, []value{concOf(pk, uint64(v))}, nil)
-					b, isBool := r.(bool)
-					if !isBool {
-						te.ok = false
-						break
-					}
-					te.vals[v] = b
+				for v := 0; v < 256 && te.ok; v++ {
+					func() {
+						defer func() {
+							if r := recover(); r != nil {
+								if pe, isEnd := r.(pathEnd); isEnd {
+									panic(pe)
+								}
+								// the callee panics for some value of the domain: not tabulated, explored for real
+								te.ok = false
+							}
+						}()
+						r := callSSA(i, nil, token.NoPos, fn, []value{concOf(pk, uint64(v))}, nil)
+						b, isBool := r.(bool)
+						if !isBool {
+							te.ok = false
+							return
+						}
+						te.vals[v] = b
+					}()
 				}
 				X.steps = saveSteps
 			}
